@@ -50,6 +50,7 @@ type Contract struct {
 	Props      []string
 	Requires   []*Clause
 	Ensures    []*Clause
+	Preserves  []*Clause // locations a frame-less (assigns everything) callee is assumed to leave unchanged
 	Yields     []*Clause // rely conditions re-assumed after every yield point (select, channel operation)
 	Records    []*Clause // definitional ghost call records: assumed at call sites, not checked in the body
 	Assigns    []*Clause
@@ -412,6 +413,16 @@ func (cs *ContractSet) ParseContractFile(path, pkgPath string) error {
 			for _, p := range splitTop(rs, ',') {
 				if c := mkClause(l, p); c != nil {
 					cur.Assigns = append(cur.Assigns, c)
+				}
+			}
+		case "preserves":
+			if cur == nil {
+				errf(l, "preserves outside of func")
+				continue
+			}
+			for _, p := range splitTop(strings.TrimSpace(rest), ',') {
+				if c := mkClause(l, p); c != nil {
+					cur.Preserves = append(cur.Preserves, c)
 				}
 			}
 		case "unfold":
